@@ -72,7 +72,7 @@ def rk_time_dependent_float(rk, Hn, v, dt, f):
     return v + sum((ks[i] * (float(np.asarray(b)[0][i]) * dt) for i in range(rk.stage)), 0)
 
 
-def prove(run):
+def prove(run, dts=(0.125, 0.5), key="C09"):
     from renormalizer.mps import Mpo, MpDm
     from renormalizer.utils import CompressConfig, CompressCriteria, EvolveConfig, EvolveMethod
     from renormalizer.utils.rk import RungeKutta
@@ -89,7 +89,7 @@ def prove(run):
             continue
         forms = [("state", a0), ("state:centre-moved", S.apply_gauge(a0, "center", n // 2)), ("density operator", MpDm.from_mps(a0))]
         for form, t0 in forms:
-            for dt in (0.125, -0.0625j):          # real time and imaginary time (C10)
+            for dt in dts:          # real time (C09) / imaginary time (C10)
                 vf = VarFactory()
                 a = SH.symbolic_state(t0, vf)
                 atc = S.complexify(t0, rng)
@@ -138,7 +138,7 @@ def prove(run):
                                      numeric_replay=native_pair(native, how), fields={"method": method})
                         decide_close(run, f"frame:{fn}:input[{tag}]", fn, S.dense(a), va, case)
                     # time-dependent Hamiltonian H(t) = (1 + t/(2 dt)) H0, single-row tableaux with distinct stage times
-                    if form == "state" and dt == 0.125:
+                    if form == "state" and dt == dts[0] and not isinstance(dt, complex):
                         f = lambda t: Fraction(1) + Fraction(t) / Fraction(2 * dt)     # noqa: E731
                         cache = {}
 
@@ -183,6 +183,6 @@ def prove(run):
                                          numeric_replay=native_td("prop_and_compress_tdrk4", RungeKutta("C_RK4")))
                         except Exception as e:
                             decide_true(run, f"post:{fn}:total[{tag}]", fn, False, f"raised on symbolic tensors: {type(e).__name__}: {e}", {"model": name, "nsites": n})
-    run.extra.setdefault("symx", {})["C09"] = {"scheme_cases": ncase, "kernel_stubs": SH.KERNEL_STUBS, "shims": SH.SHIMS}
+    run.extra.setdefault("symx", {})[key] = {"scheme_cases": ncase, "kernel_stubs": SH.KERNEL_STUBS, "shims": SH.SHIMS}
     if ncase == 0:
-        run.crash("C09_sym: no case generated")
+        run.crash(f"{key}_sym: no case generated")
